@@ -1,5 +1,6 @@
 import HdVerif.Proofs.Affine
 import HdVerif.Generated.T13w
+import HdVerif.Proofs.AffineTie
 /-! # C10  Coordinate transforms are mutually consistent and invertible
 
 Property theorems only (helper lemmas live in `Proofs/Affine.lean`).  The statements are about the model
@@ -564,5 +565,54 @@ example : ('U', 'L') ∈ validConventions := by decide
 /-- the witness of the repaired convention defect: target `FLP` from `LPH` -/
 example : transformToConvention ⟨⟨⟨2, 0, 0⟩, ⟨0, 3, 0⟩, ⟨0, 0, 4⟩⟩, ⟨1, 2, 3⟩⟩ ['L', 'P', 'H'] ['F', 'L', 'P']
     = .ok ⟨M3.ofRows ⟨0, 0, -4⟩ ⟨2, 0, 0⟩ ⟨0, 3, 0⟩, ⟨-3, 1, 2⟩⟩ := by decide +kernel
+
+/-! ## the hand-written wiring and formulas are the source's (bridges, `Proofs/AffineTie.lean`)
+
+The theorems above speak about the hand-written transformers, `affineFromComponents` and `tilePosition`.  What these copy
+from the source -- which constructor argument reaches which parameter of the affine constructors and of the coplanarity test,
+the defaults that apply to the arguments not passed, the order of the matrix products, the centre formula, the tile index
+arithmetic -- is regenerated from the source (target TC10f); the hand-written definitions are EQUAL to their twins built from
+the regenerated pieces. -/
+
+/-- transformer constructors: argument forwarding, defaults and product order are the source's -/
+theorem tie_transformer_wiring (posF oriF : List Rat) (psF : Spacing) (posT oriT : List Rat) (psT : Spacing) (sbs : Rat) (v : V3) :
+    pixToRefAffine posF oriF psF = callAffine (Gen.pixToRefCall posF oriF psF) ∧
+    refToPix posF oriF psF sbs v = (do let a ← callInvAffine (Gen.refToPixCall posF oriF psF sbs); pure (a.apply v)) ∧
+    pixToPixAffine posF oriF psF posT oriT psT = pixToPixAffineSrc posF oriF psF posT oriT psT ∧
+    imgToRefAffine posF oriF psF = imgToRefAffineSrc posF oriF psF ∧
+    refToImgAffine posF oriF psF sbs = refToImgAffineSrc posF oriF psF sbs ∧
+    imgToImgAffine posF oriF psF posT oriT psT = imgToImgAffineSrc posF oriF psF posT oriT psT ∧
+    invAffineFromAttributes posF oriF psF sbs = invAffineFromAttributesSrc posF oriF psF sbs :=
+  ⟨pixToRefAffine_uses_source _ _ _, refToPix_uses_source _ _ _ _ _, pixToPixAffine_uses_source _ _ _ _ _ _,
+   imgToRefAffine_uses_source _ _ _, refToImgAffine_uses_source _ _ _ _, imgToImgAffine_uses_source _ _ _ _ _ _,
+   invAffineFromAttributes_uses_source _ _ _ _⟩
+
+/-- `create_affine_matrix_from_components`: scaled direction, centre index and position from the centre are the source's
+expressions -/
+theorem tie_components_formulas (spacing : Spacing) (position center : Option (List Rat))
+    (direction : Option (List Rat)) (orient : Option (List Char)) (shape : Option (List Int)) :
+    affineFromComponents spacing position center direction orient shape
+      = affineFromComponentsSrc spacing position center direction orient shape :=
+  affineFromComponents_uses_source spacing position center direction orient shape
+
+/-- `compute_tile_positions_per_frame`: pixel index of a tile, transformer arguments, 1-based shift and its place after the
+position computation are the source's -/
+theorem tie_tile_arithmetic (rows cols totalRows totalCols : Int) (totalPos ori : List Rat) (ps : Spacing) (tc tr : Int) :
+    tilePosition rows cols totalPos ori ps tc tr = tilePositionSrc rows cols totalRows totalCols totalPos ori ps tc tr :=
+  tilePosition_uses_source rows cols totalRows totalCols totalPos ori ps tc tr
+
+/-- non-vacuity: the twins evaluate (and refuse) like the functions -/
+example : (pixToPixAffineSrc exPlane.posL exPlane.oriL exPlane.ps exPlane.posL exPlane.oriL exPlane.ps).map
+    (fun a => a.apply ⟨3, -2, 0⟩) = .ok ⟨3, -2, 0⟩ := by decide +kernel
+example : pixToPixAffineSrc exPlane.posL exPlane.oriL exPlane.ps
+    [1 + 48 / 65, -2 - 36 / 65, 7 / 2 + 25 / 65] exPlane.oriL exPlane.ps = .error .value := by decide +kernel
+example : (imgToImgAffineSrc exPlane.posL exPlane.oriL exPlane.ps exPlane.posL exPlane.oriL exPlane.ps).map
+    (fun a => a.apply ⟨3 / 2, -2, 0⟩) = .ok ⟨3 / 2, -2, 0⟩ := by decide +kernel
+example : affineFromComponentsSrc (.seq [2, 3, 4]) none (some [10, 20, 30]) (some [1, 0, 0, 0, 1, 0, 0, 0, 1]) none (some [5, 7, 9])
+    = .ok ⟨⟨⟨2, 0, 0⟩, ⟨0, 3, 0⟩, ⟨0, 0, 4⟩⟩, ⟨6, 11, 14⟩⟩ := by decide +kernel
+example : affineFromComponentsSrc (.seq [2, 3, 4]) none (some [10, 20, 30]) (some [1, 0, 0, 0, 1, 0, 0, 0, 1]) none none
+    = .error .type := by decide +kernel
+example : tilePositionSrc 4 6 100 200 [0, 0, 0] [0, 1, 0, 1, 0, 0] (.seq [2, 3]) 2 5
+    = .ok ((13, 21), ⟨40, 36, 0⟩) := by decide +kernel
 
 end HdVerif.C10
